@@ -157,6 +157,15 @@ def explore(ck: Check, exhaustive_n: int, n_random: int) -> None:
                 None: "same"}.get(n)
         if want is not None and out != want:
             ck.fail("CONVERSION", f"CONVERSION[{n!r}] yields {out}, not {want}", {"fn": "CONVERSION", "name": n})
+    # every named conversion on the raw values a workbook delivers for an empty / zero cell
+    for raw in ("", b"", 0, 0.0, Decimal("0"), False, "0", " "):
+        ck.oracle_evaluations += 1
+        try:
+            r = SI.CONVERSION["null"](raw)
+        except BaseException as ex:  # noqa: BLE001
+            r = err_enum(ex)
+        if r is not None:
+            ck.fail("CONVERSION", f"CONVERSION['null']({raw!r}) yields {r!r}, not None", {"fn": "CONVERSION", "name": "null", "raw": repr(raw)})
     for n in ("null", "bool", "integer", "number", "string", "decimal", None):
         if n not in SI.CONVERSION:
             ck.fail("CONVERSION", f"CONVERSION lacks {n!r}", {"fn": "CONVERSION", "name": n})
